@@ -5,6 +5,7 @@ what is proved is the decision logic around them).
 Property theorems only; helper lemmas live in Lemmas/.
 -/
 import PkgsrcVerif.Lemmas.Distinfo
+import PkgsrcVerif.Lemmas.FindEntry
 open M L
 
 /-- size verification succeeds exactly when the file's length equals the recorded size;
@@ -101,3 +102,20 @@ theorem C12_not_found_empty (path : Bytes) : findEntry {} path = none := by
 example : ({ filename := [120], size := some 3 } : Entry).verifySize (some 3) = .ok 3 ∧
     ({ filename := [120], size := some 3 } : Entry).verifySize (some 4) = .error (.size 3 4) := by
   constructor <;> rfl
+
+/-- **Lookup by the shortest recorded trailing sub-path.**  For every Distinfo and every path of
+    arbitrary bytes, `find_entry` returns the entry recorded — in the map chosen by the type of the
+    WHOLE path — under the shortest trailing sub-path of the path (its last component, its last
+    two, …, the whole path) that is recorded at all; recorded names and sub-paths are compared
+    component-wise, so `a//b`, `a/./b` and `a/b` are the same name, and DIST_SUBDIR entries are
+    found from full paths.  Nothing recorded under any trailing sub-path ⇒ not found. -/
+theorem C12_shortest_subpath (d : Distinfo) (path : Bytes) :
+    findEntry d path = (S.trailing path).findSome? (lookupComps (d.mapOf (entryType path))) :=
+  findEntry_spec d path
+
+/-- in particular: if the last component alone is recorded, that entry is returned whatever
+    longer sub-paths are recorded too -/
+theorem C12_shortest_wins (d : Distinfo) (path : Bytes) (t : List (Comp UInt8)) (rest : List (List (Comp UInt8)))
+    (e : Entry) (ht : S.trailing path = t :: rest) (he : lookupComps (d.mapOf (entryType path)) t = some e) :
+    findEntry d path = some e := by
+  rw [C12_shortest_subpath, ht, List.findSome?_cons, he]
